@@ -413,6 +413,10 @@ func matrix(c *harness.Ctx, i int) {
 	up := filepath.Join(dir, "upstream")
 	os.MkdirAll(up, 0755)
 	var base string
+	if via == "cli" && rng.Intn(3) == 0 {
+		cachedServer(c, rng, dir, up, data, id, clientU, serverU, upstreamU)
+		return
+	}
 	if via == "handler" {
 		ls, _ := desync.NewLocalStore(up, desync.StoreOptions{Uncompressed: upstreamU})
 		var conv desync.Converters
@@ -442,7 +446,9 @@ func matrix(c *harness.Ctx, i int) {
 		base = "http://" + addr
 	}
 	u, _ := url.Parse(base + "/")
-	cl, err := desync.NewRemoteHTTPStore(u, desync.StoreOptions{Uncompressed: clientU, ErrorRetry: 1, ErrorRetryBaseInterval: time.Millisecond})
+	// (the client verifies what it gets, or - as the upstream side of a chunk server does by default - does not)
+	clientSkipVerify := rng.Intn(3) == 0
+	cl, err := desync.NewRemoteHTTPStore(u, desync.StoreOptions{Uncompressed: clientU, SkipVerify: clientSkipVerify, ErrorRetry: 1, ErrorRetryBaseInterval: time.Millisecond})
 	dsu.Must(err)
 	mismatch := clientU != serverU
 	// missing first
@@ -461,11 +467,17 @@ func matrix(c *harness.Ctx, i int) {
 	}
 	serr := cl.StoreChunk(desync.NewChunk(data))
 	if mismatch {
-		// a client asking a server for the other format is a configuration error: nothing may be stored wrongly or served as good data
+		// a client asking a server for the other format is a configuration error: nothing may be stored wrongly or served
+		// as good data - with the chunk present upstream, and whether or not the client verifies what it gets
+		if serr != nil {
+			if us, uerr := desync.NewLocalStore(up, desync.StoreOptions{Uncompressed: upstreamU}); uerr == nil {
+				us.StoreChunk(desync.NewChunk(data))
+			}
+		}
 		ch, err := cl.GetChunk(id)
 		if err == nil {
 			if b, derr := ch.Data(); derr == nil && !bytes.Equal(b, data) {
-				c.Violation("mismatch-wrong-data", "client/server format mismatch delivered wrong bytes")
+				c.Violation("mismatch-wrong-data", "client/server format mismatch (client uncompressed=%v skip-verify=%v, server -u=%v) delivered %d bytes that are not the chunk (%d bytes)", clientU, clientSkipVerify, serverU, len(b), len(data))
 				return
 			}
 		}
@@ -563,6 +575,55 @@ func matrix(c *harness.Ctx, i int) {
 		}
 	}
 	c.Sample(map[string]interface{}{"leg": "matrix", "via": via, "client_uncompressed": clientU, "server_u": serverU, "upstream_uncompressed": upstreamU, "chunk": class, "bytes": len(data)})
+}
+
+// cachedServer: a read-only `desync chunk-server -s upstream -c cache`: a chunk that is in neither is missing (404,
+// ChunkMissing after one request), one that is upstream is delivered (and again from the cache).
+func cachedServer(c *harness.Ctx, rng *rand.Rand, dir, up string, data []byte, id desync.ChunkID, clientU, serverU, upstreamU bool) {
+	cfg := filepath.Join(dir, "config.json")
+	cache := filepath.Join(dir, "cache")
+	os.MkdirAll(cache, 0755)
+	dsu.WriteFile(cfg, []byte(fmt.Sprintf(`{"store-options": {%q: {"uncompressed": %v}}}`, up, upstreamU)))
+	addr, cmd, err := dsu.StartServerCmd(func(addr string) *exec.Cmd {
+		args := []string{"--config", cfg, "chunk-server", "-s", up, "-c", cache, "-l", addr}
+		if serverU {
+			args = append(args, "-u")
+		}
+		cmd := exec.Command(cli, args...)
+		cmd.Env = append(os.Environ(), "HOME="+dir)
+		return cmd
+	})
+	if err != nil {
+		c.Skip("chunk-server: %v", err)
+		return
+	}
+	defer dsu.StopServerCmd(cmd)
+	cl, err := desync.NewRemoteHTTPStore(mustURL("http://"+addr+"/"), desync.StoreOptions{Uncompressed: serverU, ErrorRetry: 2, ErrorRetryBaseInterval: time.Millisecond})
+	dsu.Must(err)
+	_, gerr := cl.GetChunk(id)
+	if _, isMissing := gerr.(desync.ChunkMissing); !isMissing {
+		c.Violation("missing-misreported:get:cached-server", "chunk server with a cache, chunk in neither the cache nor upstream: GetChunk returned %v, not ChunkMissing", gerr)
+		return
+	}
+	if has, herr := cl.HasChunk(id); herr != nil || has {
+		c.Violation("missing-misreported:has:cached-server", "chunk server with a cache: HasChunk of an absent chunk: %v %v", has, herr)
+		return
+	}
+	us, _ := desync.NewLocalStore(up, desync.StoreOptions{Uncompressed: upstreamU})
+	dsu.Must(us.StoreChunk(desync.NewChunk(data)))
+	for round := 0; round < 2; round++ {
+		ch, err := cl.GetChunk(id)
+		if err != nil {
+			c.Violation("present-not-delivered:cached-server", "round %d: %v", round, err)
+			return
+		}
+		if b, derr := ch.Data(); derr != nil || !bytes.Equal(b, data) {
+			c.Violation("data-changed:cached-server", "chunk arrived changed through a caching chunk server (server -u=%v upstream-u=%v)", serverU, upstreamU)
+			return
+		}
+	}
+	c.Count("cached_server_cells", 1)
+	c.NonTrivial("matrix|cached-server|s%v|u%v", serverU, upstreamU)
 }
 
 // ---------------------------------------------------------------------------
